@@ -116,7 +116,7 @@ def correspond(ctx):
         "samples": [lines[0], lines2[0][:160], {"sweep_result": outs[0]}],
         "mismatches": mismatches, "oracle_failures": oracle_failures,
         "exhaustive": True,
-        "extra": {"sweeps": sweeps, "exact_ks": ks_table, "pointwise": per, "stratified_draws_per_point": len(ks), "case_stats": stats},
+        "extra": {"sweeps": sweeps, "exact_ks": ks_table, "pointwise": per, "stratified_draws_per_point": len(ks), "case_stats": stats, "distinct_model_paths": ctx.get("model_paths", {})},
     }
 
 
